@@ -44,6 +44,20 @@ func validCase(c *hc.Ctx, grids []*Grid, maxW int64) (*Grid, [][]Pt, string) {
 		g := pickGrid(c, grids)
 		w := randWindow(c.Rng, g, maxW)
 		poly, kind := genValidPolygon(c.Rng, w)
+		if !g.Dyadic { // decimal grid: nudge every ordinate to an integer whose float image reads back as itself
+			ok := true
+			for _, ring := range poly {
+				for k := range ring {
+					x, ok1 := fixRoundTrip(ring[k][0])
+					y, ok2 := fixRoundTrip(ring[k][1])
+					ring[k] = Pt{x, y}
+					ok = ok && ok1 && ok2
+				}
+			}
+			if !ok || !validPolygon(poly) {
+				continue
+			}
+		}
 		if g.inGrid(poly) {
 			return g, poly, kind
 		}
@@ -591,7 +605,11 @@ func runC07(c *hc.Ctx) error {
 		var g *Grid
 		var poly [][]Pt
 		var kind string
-		if valid {
+		if valid && i%5 == 4 {
+			// a tile matrix set in small units (pixel 1e-5): absolute thresholds on areas or distances would show here
+			g, poly, kind = validCase(c, tinyGrids(), 10)
+			kind = "tiny units " + kind
+		} else if valid {
 			g, poly, kind = validCase(c, grids, 10)
 		} else {
 			g, poly, kind = rawCase(c, grids, 8)
@@ -698,6 +716,23 @@ func runC08(c *hc.Ctx) error {
 	}
 	for i := 0; i < n; i++ {
 		g, poly, kind := rawCase(c, grids, 8)
+		if i%3 == 1 { // shapes whose shell collapses at a deep level but not at a coarser one
+			for try := 0; try < 50; try++ {
+				g = pickGrid(c, grids)
+				w := randWindow(c.Rng, g, 12)
+				ring := genArrowhead(c.Rng, w)
+				if g.inGrid([][]Pt{ring}) && ringSimple(ring) {
+					poly, kind = [][]Pt{ring}, "arrowhead"
+					if c.Rng.Intn(3) == 0 { // with a hole-like second ring, so that later rings see the level map
+						poly = append(poly, genStar(c.Rng, w, 3+c.Rng.Intn(3)))
+						if !g.inGrid(poly) {
+							poly = poly[:1]
+						}
+					}
+					break
+				}
+			}
+		}
 		cfg := randCfg(c.Rng)
 		cfg.IgnoreOutsideGrid = false
 		c.Count("kind " + kind)
@@ -714,6 +749,18 @@ func runC08(c *hc.Ctx) error {
 			}
 			single[id] = runSnap(gi, poly, []int{id}, cfg, watchdog)
 			c.Sum.Evaluations++
+		}
+		// fates per level when requested alone: present / absent
+		deeperGone := false
+		for _, id := range all {
+			for _, id2 := range all {
+				if id2 > id && single[id].Panic == "" && single[id2].Panic == "" && len(single[id].Raw[id]) > 0 && len(single[id2].Raw[id2]) == 0 {
+					deeperGone = true
+				}
+			}
+		}
+		if deeperGone {
+			c.Count("fates differ: present at a coarser tile matrix, absent at a deeper one")
 		}
 		for mask := 1; mask < 1<<len(all); mask++ {
 			var ids []int
